@@ -405,6 +405,11 @@ def check_array_path(rep, f, label, rows, dom, P, is_class, base, tc=None, copy_
         if fuzzy or _UNK.search(why): rep.inconclusive(r, f'{label} {rs}', node.shortloc() if node is not None else site, f'not decided ({fuzzy or "unknown value"}): {why}')
         else: rep.violation(r, f'{label} {rs}', node.shortloc() if node is not None else site, why, key=f'{r}|{strip_targs(f.qname)}|{why[:50]}', fn=f.name)
     if P.end == 'throw': return
+    if not viol and not isinstance(arr, Ptr) and not base.startswith('~') and P.end in ('exit', 'return', None):
+        # the storage pointer got a value the block model does not follow (an allocator it does not know, a call result): nothing about
+        # this path is decided
+        rep.inconclusive('AR.2', f'{label} {rs}', site, f'm_array ends up as `{str(arr)[:60]}`, which the block model does not follow')
+        return
     if not viol:
         xf = common.extra_field_fork(P, 'tulz::Array', ('m_array', 'm_size'))
         if xf is not None:
